@@ -64,14 +64,19 @@ def run(ctx, R, tier):
     rc = ctx.fn("Pyro5.serializers.SerializerBase.recreate_classes")
     lit = rc.params[1]
     tvars = [n.targets[0].id for n in walk_no_nested(rc.node) if isinstance(n, ast.Assign) and isinstance(n.targets[0], ast.Name) and unparse(n.value) == "type(%s)" % lit]
+    rccfg = ctx.cfg(rc)
+    from .c03 import edge_has_fact
+    rec_nodes = [n for n in rccfg.nodes if any(isinstance(x, ast.Call) and isinstance(x.func, ast.Attribute) and x.func.attr == "recreate_classes"
+                                               for e_ in __import__("verif.engine.cfg", fromlist=["stmt_exprs"]).stmt_exprs(n) for x in ast.walk(e_))]
     for kind in ("set", "list", "tuple", "dict"):
-        branches = [n for n in walk_no_nested(rc.node) if isinstance(n, ast.If) and isinstance(n.test, ast.Compare) and len(n.test.ops) == 1 and
-                    isinstance(n.test.ops[0], (ast.Is, ast.Eq)) and unparse(n.test.comparators[0]) == kind and
-                    (unparse(n.test.left) in tvars or unparse(n.test.left) == "type(%s)" % lit)]
-        branches += [n for n in walk_no_nested(rc.node) if isinstance(n, ast.If) and isinstance(n.test, ast.Call) and unparse(n.test.func) == "isinstance" and
-                     unparse(n.test.args[0]) == lit and kind in unparse(n.test.args[1])]
-        ok = bool(branches) and any(isinstance(x, ast.Call) and isinstance(x.func, ast.Attribute) and x.func.attr == "recreate_classes"
-                                    for b in branches for st in b.body for x in ast.walk(st))
+        def is_kind(atom, pol, kind=kind):
+            if pol is not True:
+                return False
+            if isinstance(atom, ast.Compare) and len(atom.ops) == 1 and isinstance(atom.ops[0], (ast.Is, ast.Eq)) and unparse(atom.comparators[0]) == kind and \
+                    (unparse(atom.left) in tvars or unparse(atom.left) == "type(%s)" % lit):
+                return True
+            return isinstance(atom, ast.Call) and unparse(atom.func) == "isinstance" and unparse(atom.args[0]) == lit and kind in unparse(atom.args[1])
+        ok = any(rccfg.guarded(n, lambda e: edge_has_fact(e, is_kind)) for n in rec_nodes)
         R.check(ok, "C01-R5", "recreate_classes|%s" % kind, "class-tagged values nested in a %s are re-created" % kind, rc.loc(),
                 "recreate_classes does not descend into %s values: a URI/exception/set inside such a container arrives as a raw dict" % kind)
     for fq, enc, dec, what in (("Pyro5.server.Daemon.handleRequest", "loadsCall", "dumps", "server"), ("Pyro5.client.Proxy._pyroInvoke", "dumpsCall", "loads", "client")):
